@@ -37,7 +37,8 @@ static uint64_t clock_for(int table, int variant) { if (variant == 9) return R_E
 /* the KDF stub derives the mask from the password bytes it is given, so equal masks <=> equal normalised passwords */
 static void mask_for_pw(const uint8_t *pw, size_t n, uint8_t m[32]) { uint64_t h = 0x1234567; for (size_t i = 0; i < n; i++) h = mix64(h, pw[i]); h = mix64(h, n); for (int i = 0; i < 32; i++) { h = mix64(h, (uint64_t)i); m[i] = (uint8_t)(h >> 24); } }
 extern void (*E_kdf_hook)(uint8_t *key, size_t keylen);
-static void kdf_hook(uint8_t *key, size_t keylen) { if (E.kdf.saltlen == 16) { uint8_t m[32]; mask_for_pw(E.kdf.pw, E.kdf.pwlen < sizeof E.kdf.pw ? E.kdf.pwlen : sizeof E.kdf.pw, m); for (size_t i = 0; i < keylen; i++) key[i] = m[i % 32]; } }
+extern int E_kdf_table;
+static void kdf_hook(uint8_t *key, size_t keylen) { if (E.kdf.saltlen == 16) { uint8_t m[32]; mask_for_pw(E.kdf.pw, E.kdf.pwlen < sizeof E.kdf.pw ? E.kdf.pwlen : sizeof E.kdf.pw, m); for (size_t i = 0; i < keylen; i++) key[i] = (uint8_t)(m[i % 32] ^ (E_kdf_table ? 0x5A : 0)); } }
 
 static int nlive(const struct mstate *m) { int n = 0; for (int i = 0; i < NSLOT; i++) n += m->live[i]; return n; }
 static int popcount3(unsigned v) { return (v & 1) + ((v >> 1) & 1) + ((v >> 2) & 1); }
@@ -146,6 +147,7 @@ static void apply(const struct op *o, struct mstate *m) {
         char nf[PSTR + 1]; size_t nl;
         { int na = 0; for (const char *q = pw; *q; q++) if ((uint8_t)*q & 0x80) na = 1; if (na) nl = u_nfkd(pw, nf, CAP); else { nl = strnlen(pw, CAP); memcpy(nf, pw, nl); nf[nl] = 0; } }
         uint8_t mask[32]; mask_for_pw((const uint8_t *)nf, nl, mask);
+        if (m->table == 1) for (int i = 0; i < 32; i++) mask[i] ^= 0x5A;      /* the KDF injected with table B is a different function */
         ref_crypt(&m->s[o->a], mask);
         static const uint8_t SALT[16] = { 'P','O','L','Y','S','E','E','D',' ','m','a','s','k',0,0xFF,0xFF };
         if (strcmp(copy, pw)) { BADV("c14:password-modified", "crypt modified its password argument"); }
@@ -374,7 +376,7 @@ static void build_profile(void) {
         static const int CF[] = { 0, 1, 6 };
         for (int s = 0; s < NSLOT; s++) {
             for (int j = 0; j < 3; j++) add_op(O_CREATE, s, CF[j], s, "create(slot%d,features=%d)", s, CF[j]);
-            if (s == 0) { add_op(O_CREATE, s, (int)0xFFFFFF01u, s, "create(slot0,features=0xffffff01)"); add_op(O_CREATE, s, 0, 9, "create(slot0,features=0,clock after 2107)"); }
+            if (s == 0) { add_op(O_CREATE, s, (int)0xFFFFFF09u, s, "create(slot0,features=0xffffff09)"); add_op(O_CREATE, s, 0, 9, "create(slot0,features=0,clock after 2107)"); }
             add_op(O_FREE, s, 0, 0, "free(slot%d)", s);
             for (int p = 0; p < NPW; p++) add_op(O_CRYPT, s, p, 0, "crypt(slot%d,pw%d)", s, p);
             for (int d = 0; d < NSLOT; d++) if (d != s) {
